@@ -680,7 +680,9 @@ func R08(group string) Rule {
 			scope := P.Scope(fn, func(f *ssa.Function) bool { return core.PkgPathOf(f) != core.PkgGcsemu })
 			within := setOf(scope)
 			var run *ssa.Call
-			for _, ci := range core.CallsIn(scope, func(ci *core.CallInfo) bool { return ci.MethodOn(core.PkgGcsutil, "TransientLockMap", "Run") }) {
+			for _, ci := range core.CallsIn(scope, func(ci *core.CallInfo) bool {
+				return isLockRunCall(P, ci) && lockWrappers(P)[ci.Instr.Parent()] == nil
+			}) {
 				run, _ = ci.Instr.(*ssa.Call)
 			}
 			eqs := scopeCallsTo(scope, "bytes", "Equal")
@@ -997,11 +999,14 @@ func R08(group string) Rule {
 			// gcloop never forces
 			loop := P.MustFunc(core.PkgBttest, "(*server).gcloop")
 			okForce, n := true, 0
-			for _, f := range P.SrcFuncs(core.PkgBttest) {
+			// the loop together with the pieces it is split into (wait / pass helpers)
+			lscope := P.Scope(loop, func(f *ssa.Function) bool { return core.PkgPathOf(f) != core.PkgBttest || f == fn })
+			lset := setOf(lscope)
+			for _, f := range lscope {
 				for _, ci := range core.AllCalls(f) {
-					if ci.Static == fn && core.Root(f) == loop {
+					if ci.Static == fn {
 						n++
-						if bv, isB := core.ConstBool(ci.Common.Args[len(ci.Common.Args)-1]); !isB || bv {
+						if !P.AllOrigins(ci.Common.Args[len(ci.Common.Args)-1], lset, func(o ssa.Value) bool { bv, isB := core.ConstBool(o); return isB && !bv }) {
 							okForce = false
 						}
 					}
